@@ -167,7 +167,124 @@ def lex_tables():
     return "\n".join(out), {"kinds": len(kinds), "keywords": len(keywords), "spellings": len(spelling)}
 
 
-TABLES = {"LexTables": lex_tables}
+
+# ------------------------------------------------------------------------------------------------
+# Core printer tables (generate/ast/mod.rs): operator spellings, precedence, operand minima
+# ------------------------------------------------------------------------------------------------
+def core_tables():
+    src = read("src/generate/ast/mod.rs")
+    consts = {m.group(1): int(m.group(2)) for m in re.finditer(r"const (PREC_[A-Z]+): u8 = (\d+);", src)}
+    for need in ("PREC_LAMBDA", "PREC_NOT", "PREC_ATOM"):
+        if need not in consts:
+            raise TranslateError(f"generate/ast/mod.rs: constant {need} not found")
+
+    def val(tok):
+        tok = tok.strip()
+        if tok in consts:
+            return consts[tok]
+        if re.fullmatch(r"\d+", tok):
+            return int(tok)
+        raise TranslateError(f"cannot evaluate precedence value {tok!r}")
+
+    to_py = block_after(src, r"fn to_py\(core: &Core, ind: usize\) -> String\s*\{", "to_py")
+    binops = re.findall(r'Core::([A-Za-z]+) \{ left, right \} => binary\(core, left, "([^"]+)", right, ind\),', to_py)
+    if len(binops) < 20:
+        raise TranslateError(f"to_py: expected the binary operator arms `binary(core, left, \"op\", right, ind)`, found {len(binops)}")
+    unops = re.findall(r'Core::([A-Za-z]+) \{ expr \} => format!\("([^"{]*)\{\}", operand\(expr, ind, prec\(core\)\)\),', to_py)
+    if sorted(u for u, _ in unops) != ["AddU", "BOneCmpl", "Not", "SubU"]:
+        raise TranslateError(f"to_py: unary operator arms changed: {unops}")
+    m = re.search(r'Core::Ternary \{ cond, then, el \} => format!\(\s*"\{\} if \{\} else \{\}",\s*operand\(then, ind, ([^)]*\)?[^,)]*)\),\s*operand\(cond, ind \+ 1, ([^)]*\)?[^,)]*)\),\s*operand\(el, ind \+ 1, ([A-Z_a-z0-9() +]+)\)\s*\),', to_py)
+    if not m:
+        raise TranslateError("to_py: ternary arm not in the expected shape")
+    prec_body = block_after(src, r"fn prec\(core: &Core\) -> u8\s*\{", "prec")
+    prec_match = block_after(prec_body, r"match core\s*\{", "prec match")
+    prec = {}
+    default = None
+    for line in prec_match.splitlines():
+        line = line.strip()
+        if not line or line.startswith("//"):
+            continue
+        mm = re.fullmatch(r"((?:Core::[A-Za-z]+ \{ \.\. \}(?: \| )?)+) => ([A-Z_0-9]+),", line)
+        if mm:
+            for v in re.findall(r"Core::([A-Za-z]+)", mm.group(1)):
+                prec[v] = val(mm.group(2))
+            continue
+        mm = re.fullmatch(r"_ => ([A-Z_0-9]+),", line)
+        if mm:
+            default = val(mm.group(1))
+            continue
+        raise TranslateError(f"prec: cannot parse arm {line!r}")
+    if default is None:
+        raise TranslateError("prec: no default arm")
+    P = lambda v: prec.get(v, default)
+
+    def tern(expr):
+        expr = expr.strip()
+        mm = re.fullmatch(r"prec\(core\)(?: \+ (\d+))?", expr)
+        if mm:
+            return P("Ternary") + int(mm.group(1) or 0)
+        return val(expr)
+    ternary = (tern(m.group(1)), tern(m.group(2)), tern(m.group(3)))
+    sides_body = block_after(src, r"fn sides\(core: &Core\) -> \(u8, u8\)\s*\{", "sides")
+    sides_match = block_after(sides_body, r"match core\s*\{", "sides match")
+    arms = []
+    for line in sides_match.splitlines():
+        line = line.strip()
+        if not line or line.startswith("//"):
+            continue
+        mm = re.fullmatch(r"(.+?) => \((p(?: [+-] \d+)?), (p(?: [+-] \d+)?)\),", line)
+        if not mm:
+            raise TranslateError(f"sides: cannot parse arm {line!r}")
+        arms.append((mm.group(1), mm.group(2), mm.group(3)))
+
+    def ev(e, p):
+        mm = re.fullmatch(r"p(?: ([+-]) (\d+))?", e)
+        if not mm.group(1):
+            return p
+        return p + int(mm.group(2)) if mm.group(1) == "+" else p - int(mm.group(2))
+
+    def sides(v):
+        p = P(v)
+        for pat, l, r in arms:
+            if pat == "_":
+                return ev(l, p), ev(r, p)
+            mm = re.fullmatch(r"_ if p == (\d+)", pat)
+            if mm:
+                if p == int(mm.group(1)):
+                    return ev(l, p), ev(r, p)
+                continue
+            vs = re.findall(r"Core::([A-Za-z]+) \{ \.\. \}", pat)
+            if not vs:
+                raise TranslateError(f"sides: cannot parse pattern {pat!r}")
+            if v in vs:
+                return ev(l, p), ev(r, p)
+        raise TranslateError("sides: no arm applies")
+    # primary / comprehension condition minima
+    if not re.search(r"Core::Int \{ \.\. \} => format!\(\"\(\{\}\)\", to_py\(core, ind\)\),\s*_ => operand\(core, ind, PREC_ATOM\),", src):
+        raise TranslateError("primary: not in the expected shape")
+    if "operand(cond, ind, PREC_NOT)" not in src:
+        raise TranslateError("comprehension conditions: not in the expected shape")
+    out = ["-- GENERATED by tools/translate.py from /repo/src/generate/ast/mod.rs — do not edit", "namespace MV", "",
+           "/-- binary operators of `Core` printed by `binary(core, left, op, right, ind)` -/", "inductive BinOp where"]
+    out += [f"  | {v}" for v, _ in binops]
+    out += ["  deriving DecidableEq, Repr, Inhabited", "", "def BinOp.all : List BinOp := [" + ", ".join("." + v for v, _ in binops) + "]", "",
+            "def BinOp.name : BinOp → String"] + [f'  | .{v} => "{v}"' for v, _ in binops]
+    out += ["", "def BinOp.spelling : BinOp → String"] + [f'  | .{v} => "{o}"' for v, o in binops]
+    out += ["", "/-- `prec` of the node -/", "def BinOp.prec : BinOp → Nat"] + [f"  | .{v} => {P(v)}" for v, _ in binops]
+    out += ["", "/-- `sides`: weakest binding strength of the (left, right) operand printed without parentheses -/",
+            "def BinOp.sides : BinOp → Nat × Nat"] + [f"  | .{v} => ({sides(v)[0]}, {sides(v)[1]})" for v, _ in binops]
+    out += ["", "inductive UnOp where"] + [f"  | {v}" for v, _ in unops] + ["  deriving DecidableEq, Repr, Inhabited", "",
+            "def UnOp.all : List UnOp := [" + ", ".join("." + v for v, _ in unops) + "]", "",
+            "def UnOp.name : UnOp → String"] + [f'  | .{v} => "{v}"' for v, _ in unops]
+    out += ["", "def UnOp.spelling : UnOp → String"] + [f'  | .{v} => "{o}"' for v, o in unops]
+    out += ["", "/-- `prec` of the node; the operand is printed with the same minimum -/", "def UnOp.prec : UnOp → Nat"] + [f"  | .{v} => {P(v)}" for v, _ in unops]
+    out += ["", f"def precLambda : Nat := {P('AnonFun')}", f"def precTernary : Nat := {P('Ternary')}", f"def precAtom : Nat := {default}",
+            f"def precCompCond : Nat := {consts['PREC_NOT']}",
+            "/-- minima of the (then, cond, else) operands of a ternary -/",
+            f"def ternaryMins : Nat × Nat × Nat := ({ternary[0]}, {ternary[1]}, {ternary[2]})", "", "end MV", ""]
+    return "\n".join(out), {"binops": len(binops), "unops": len(unops), "levels": sorted(set(P(v) for v, _ in binops))}
+
+TABLES = {"LexTables": lex_tables, "CoreTables": core_tables}
 
 
 def main(argv):
